@@ -218,11 +218,35 @@ func check(run *kit.Run, c caseFile) {
 		run.Guard("txn|"+c.RoutesString(), c, func() {
 			txn := b.F.Txn(true)
 			defer txn.Abort()
+			// what the router must keep answering until the transaction commits
+			pre := map[string][]*ref.Pattern{}
+			for m, ps := range b.ByMethod {
+				pre[m] = append([]*ref.Pattern(nil), ps...)
+			}
+			preMethods := append([]string(nil), b.Methods...)
+			// every other case starts the transaction by updating a route that is already registered (same handler and
+			// options: the registered set does not change)
+			if c.Split > 0 && len(c.Routes)%2 == 0 {
+				rs := c.Routes[(len(c.Reqs)+c.Split)%c.Split]
+				_, _ = txn.Update(rs.Method, rs.Pattern, b.Handler(), route.RouteOpts(rs)...)
+			}
 			for _, rs := range c.Routes[c.Split:] {
 				if _, err := txn.Handle(rs.Method, rs.Pattern, b.Handler(), route.RouteOpts(rs)...); err == nil {
 					b.Note(rs)
 				}
 			}
+			// the router (not the transaction) still routes like the set before the transaction, whatever the
+			// transaction has written so far
+			full, fullMethods := b.ByMethod, b.Methods
+			b.ByMethod, b.Methods = pre, preMethods
+			for _, q := range c.Reqs {
+				if gen.HasEmptySegment(q.MatchPath()) {
+					continue
+				}
+				probeVia(run, c, b, q, "router-while-a-write-txn-is-open", b.F)
+				run.Count("probes_of_router_during_open_write_txn", 1)
+			}
+			b.ByMethod, b.Methods = full, fullMethods
 			snap := txn.Snapshot()
 			for _, q := range c.Reqs {
 				if gen.HasEmptySegment(q.MatchPath()) {
